@@ -40,12 +40,12 @@ Proof.
 Qed.
 
 (* plain `sum` (signed / unsigned integer inputs): every selected row is added *)
-Theorem P_sum_all ng rows g : (g < ng)%nat ->
+Theorem P_sum_all ng rows g : (forall x, is_null o x = false) -> (g < ng)%nat ->
   get dV (fst (P o Rsum ng rows)) g = sum_list o (group_vals g rows)
   /\ get 0 (snd (P o Rsum ng rows)) g = Z.of_nat (length (group_vals g rows)).
 Proof.
-  intros Hg. pose proof (P_group o Rsum ng rows g Hg) as E.
-  unfold initial_value in E. simpl in E. rewrite (sum_spec o L) in E. inversion E. auto.
+  intros Hnn Hg. pose proof (P_group o Rsum ng rows g Hg) as E.
+  unfold initial_value in E. simpl in E. rewrite (sum_spec o L) in E by auto. inversion E. auto.
 Qed.
 
 (* rows carrying a negative code are ignored *)
